@@ -6,6 +6,7 @@ import (
 	"sync"
 	"testing"
 
+	"github.com/iotaledger/hive.go/ds"
 	"github.com/iotaledger/hive.go/ds/reactive"
 	"pgregory.net/rapid"
 	"verifharness/internal/ctl"
@@ -36,11 +37,15 @@ type sortedAPI struct {
 	lightest   func() int
 }
 
-func newSortedAPI(hasLess bool, initialWeights []int) *sortedAPI {
-	if hasLess {
-		return buildSorted[lessInt](true, initialWeights)
+func newSortedAPI(hasLess bool, initialWeights []int, slow ...int) *sortedAPI {
+	n := 0
+	if len(slow) > 0 {
+		n = slow[0]
 	}
-	return buildSorted[int](false, initialWeights)
+	if hasLess {
+		return buildSorted[lessInt](true, initialWeights, n)
+	}
+	return buildSorted[int](false, initialWeights, n)
 }
 
 type intLike interface{ ~int }
@@ -48,12 +53,20 @@ type intLike interface{ ~int }
 func buildSorted[E interface {
 	comparable
 	intLike
-}](hasLess bool, initialWeights []int) *sortedAPI {
+}](hasLess bool, initialWeights []int, slow int) *sortedAPI {
 	weights := map[E]reactive.Variable[int]{}
 	for e := 1; e <= sortedElems; e++ {
 		weights[E(e)] = reactive.NewVariable[int]().Init(initialWeights[e-1])
+		if slow > 0 {
+			// an observer that only yields, registered before the SortedSet subscribes: stretches the window between
+			// "weight holds the new value" and "the SortedSet has repositioned the element"
+			weights[E(e)].OnUpdate(func(_, _ int) { gosched(slow) })
+		}
 	}
 	s := reactive.NewSortedSet(func(e E) reactive.Variable[int] { return weights[e] })
+	if slow > 0 {
+		s.OnUpdate(func(ds.SetMutations[E]) { gosched(slow) })
+	}
 	conv := func(l []E) []int {
 		out := make([]int, len(l))
 		for i, e := range l {
@@ -163,11 +176,12 @@ func (a sortedAction) String() string {
 type sortedSeqProg struct {
 	Less    bool           `json:"less"`
 	Weights []int          `json:"weights"`
+	Init    []int          `json:"init"`
 	Actions []sortedAction `json:"actions"`
 }
 
 func (p sortedSeqProg) strings() []string {
-	out := []string{fmt.Sprintf("less=%v weights %v", p.Less, p.Weights)}
+	out := []string{fmt.Sprintf("less=%v weights %v init %v", p.Less, p.Weights, p.Init)}
 	for _, a := range p.Actions {
 		out = append(out, a.String())
 	}
@@ -177,6 +191,10 @@ func (p sortedSeqProg) strings() []string {
 func runSortedSeq(p sortedSeqProg) verdict {
 	a := newSortedAPI(p.Less, p.Weights)
 	model := map[int]bool{}
+	if len(p.Init) > 0 {
+		a.write(setOp{Op: "addall", A: p.Init})
+		modelSetOp(model, setOp{Op: "addall", A: p.Init})
+	}
 	labels := map[string]bool{fmt.Sprintf("less:%v", p.Less): true}
 	v := verdict{}
 	removed := map[int]bool{}
@@ -277,6 +295,7 @@ func TestSortedSetSeq(t *testing.T) {
 	rapid.Check(t, func(rt *rapid.T) {
 		p := sortedSeqProg{Less: rapid.Bool().Draw(rt, "less")}
 		p.Weights = rapid.SliceOfN(rapid.IntRange(-2, 3), sortedElems, sortedElems).Draw(rt, "weights")
+		p.Init = rapid.SliceOfNDistinct(rapid.IntRange(1, sortedElems), 0, 5, func(e int) int { return e }).Draw(rt, "init")
 		p.Actions = rapid.SliceOfN(genSortedAction(), 1, 20).Draw(rt, "actions")
 		v := runSortedSeq(p)
 		key := strings.Join(p.strings(), "|")
@@ -293,6 +312,7 @@ func TestSortedSetSeq(t *testing.T) {
 // ---------------------------------------------------------------------------------------------------------
 
 type sortedConcProg struct {
+	Slow    int              `json:"slow"` // yields inside observers of the weights / the set
 	Less    bool             `json:"less"`
 	Weights []int            `json:"weights"`
 	Init    []int            `json:"init"`
@@ -300,7 +320,7 @@ type sortedConcProg struct {
 }
 
 func (p sortedConcProg) strings() []string {
-	out := []string{fmt.Sprintf("less=%v weights %v init %v", p.Less, p.Weights, p.Init)}
+	out := []string{fmt.Sprintf("less=%v weights %v init %v slow %d", p.Less, p.Weights, p.Init, p.Slow)}
 	for i, s := range p.Scripts {
 		var l []string
 		for _, a := range s {
@@ -312,19 +332,19 @@ func (p sortedConcProg) strings() []string {
 }
 
 func runSortedConc(p sortedConcProg) verdict {
-	a := newSortedAPI(p.Less, p.Weights)
+	a := newSortedAPI(p.Less, p.Weights, p.Slow)
 	if len(p.Init) > 0 {
 		a.write(setOp{Op: "addall", A: p.Init})
 	}
 	var clock ctl.Clock
 	stamps := make([][]stampPair, len(p.Scripts))
-	start := make(chan struct{})
+	var start barrier
 	var wg sync.WaitGroup
 	for gi, script := range p.Scripts {
 		wg.Add(1)
 		go func(gi int, script []sortedAction) {
 			defer wg.Done()
-			<-start
+			start.wait()
 			for _, act := range script {
 				gosched(act.Yld)
 				st := stampPair{A: clock.Tick()}
@@ -339,7 +359,7 @@ func runSortedConc(p sortedConcProg) verdict {
 		}(gi, script)
 	}
 	v := verdict{}
-	if !ctl.Within(hangTimeout(), func() { close(start); wg.Wait() }) {
+	if !ctl.Within(hangTimeout(), func() { start.release(len(p.Scripts)); wg.Wait() }) {
 		hangSeen.Store(true)
 		v.Hang = true
 		v.Msg = "run did not finish within the hang bound (a weight update and a structural change of the same SortedSet never returned); goroutine dump:\n" + ctl.Dump()
@@ -377,7 +397,7 @@ const checkSortedConc = "sortedset_concurrent"
 func TestSortedSetConc(t *testing.T) {
 	stats.Rule(checkSortedConc, "rapid draws the element type, initial weights, initial contents and 2-4 goroutine scripts of 1-10 actions (set writes and weight(e).Set(w), drawn yields); one program in four is the targeted shape 'one goroutine toggles membership of e, another one keeps changing weight(e)'. Interleaving is the Go scheduler's. Oracle at quiescence: same defining function as sortedset_sequential; 20 s hang watchdog with goroutine dump. Non-trivial = a weight update overlapped a structural change or another weight update (by stamps). Distinct by program.")
 	rapid.Check(t, func(rt *rapid.T) {
-		p := sortedConcProg{Less: rapid.Bool().Draw(rt, "less")}
+		p := sortedConcProg{Less: rapid.Bool().Draw(rt, "less"), Slow: rapid.IntRange(0, 2).Draw(rt, "slow")}
 		p.Weights = rapid.SliceOfN(rapid.IntRange(-2, 3), sortedElems, sortedElems).Draw(rt, "weights")
 		p.Init = rapid.SliceOfNDistinct(rapid.IntRange(1, sortedElems), 0, 4, func(e int) int { return e }).Draw(rt, "init")
 		yielded := rapid.Custom(func(t *rapid.T) sortedAction {
